@@ -92,6 +92,20 @@ def step (s : S) (line : String) : S × String :=
       | .ok h => (s, "ok " ++ showHit h)
       | .error e => (s, e.name)
     | _, _ => (s, "bad-op")
+  | "findq" :: _ =>
+    match s.ssi, argHex? ws "k" with
+    | some x, some k =>
+      match x.findName k with
+      | .ok h => (s, s!"ok fh={h.fh} r={toSigned h.roff}")
+      | .error e => (s, e.name)
+    | _, _ => (s, "bad-op")
+  | "findnumq" :: _ =>
+    match s.ssi, argInt? ws "i" with
+    | some x, some i =>
+      match x.findNumber i with
+      | .ok _ => (s, "ok")
+      | .error e => (s, e.name)
+    | _, _ => (s, "bad-op")
   | "findnum" :: _ =>
     match s.ssi, argInt? ws "i" with
     | some x, some i =>
